@@ -13,6 +13,10 @@ pub struct Block {
     align: usize,
     cap: usize,
     shadow: i64,
+    /// wakers into this block held by the environment, from the environment's own books
+    held: i64,
+    /// threads that are inside a waker vtable call on this block right now (environment's books)
+    inflight: Vec<u64>,
     released: bool,
     handle_alive: bool,
 }
@@ -47,6 +51,35 @@ pub fn begin_execution() {
         s.blocks.clear();
         s.order = 0xcbf29ce484222325;
         s.active = true;
+    });
+}
+
+/// The environment took (+1) or gave up (-1) a waker whose data pointer is `addr`.
+pub fn held(addr: usize, delta: i64) {
+    with_state(|s| {
+        if !s.active {
+            return;
+        }
+        if let Some(b) = s.blocks.iter_mut().rev().find(|b| addr >= b.base && addr < b.base + b.size) {
+            b.held += delta;
+        }
+    });
+}
+
+/// The calling thread enters (true) / leaves (false) a waker vtable call on the block at `addr`.
+pub fn in_call(addr: usize, enter: bool) {
+    let me = crate::facade::thread_token();
+    with_state(|s| {
+        if !s.active {
+            return;
+        }
+        if let Some(b) = s.blocks.iter_mut().rev().find(|b| addr >= b.base && addr < b.base + b.size) {
+            if enter {
+                b.inflight.push(me);
+            } else if let Some(i) = b.inflight.iter().position(|&t| t == me) {
+                b.inflight.swap_remove(i);
+            }
+        }
     });
 }
 
@@ -109,6 +142,8 @@ fn handler(e: &Event) {
                     align,
                     cap,
                     shadow: 1,
+                    held: 0,
+                    inflight: Vec::new(),
                     released: false,
                     handle_alive: true,
                 });
@@ -123,10 +158,17 @@ fn handler(e: &Event) {
                             return Some(format!("C03 double-release: waker block cap={} released twice", b.cap));
                         }
                         b.released = true;
-                        if b.shadow != 0 {
+                        let me = crate::facade::thread_token();
+                        if b.inflight.iter().any(|&t| t != me) {
                             return Some(format!(
-                                "C03 release-while-referenced: waker block cap={} released while {} references are outstanding",
-                                b.cap, b.shadow
+                                "C03 release-during-waker-call: waker block cap={} released by one thread while another thread is inside a waker call on it",
+                                b.cap
+                            ));
+                        }
+                        if b.held != 0 || b.handle_alive {
+                            return Some(format!(
+                                "C03 release-while-referenced: waker block cap={} released while {} wakers of the environment still point into it (collection handle alive: {})",
+                                b.cap, b.held, b.handle_alive
                             ));
                         }
                         if b.size != size || b.align != align {
@@ -145,9 +187,6 @@ fn handler(e: &Event) {
                             WakerOp::Clone => b.shadow += 1,
                             WakerOp::Drop => b.shadow -= 1,
                             _ => {}
-                        }
-                        if b.shadow < 0 {
-                            return Some(format!("C03 refcount-underflow: waker block cap={}", b.cap));
                         }
                         None
                     }
